@@ -3,8 +3,9 @@ import MalVerif.Proofs.FixOuter
 /-!
 # C08 — viability / necessity labels are the greatest fixed point, in any node order
 
-Statements are about `AGraph.calcViab` / `AGraph.calcNec`, the model of
-`calculate_viability_and_necessity` on a freshly generated graph.
+Statements are about `AGraph.calcViabFrom` / `AGraph.calcNecFrom`, the model of
+`calculate_viability_and_necessity` on a graph whose nodes carry arbitrary labels, and about
+`AGraph.calcViab` / `AGraph.calcNec`, the same on a freshly generated graph.
 -/
 namespace MalVerif.C08
 open MalVerif.Apriori MalVerif.AGraph
@@ -62,32 +63,69 @@ theorem const_out_of_range_nec (g : AG) (x : Nat) (h : ¬ x < g.length) : necCon
 every permutation of the node list does -/
 def Covers (g : AG) (order : List Nat) : Prop := ∀ x, x < g.length → x ∈ order
 
-/-- **Viability is the greatest fixed point**: the computed labelling solves
-the equations and dominates every labelling that is consistent with them,
-for every node order. -/
-theorem viability_is_gfp (g : AG) (hv : validB g = true) (order : List Nat) (hc : Covers g order) :
-    (∀ x, calcViab g order x = Sys (viabG g) (viabConst g) (calcViab g order) x) ∧
-    (∀ w : Lab, (∀ x, w x = true → Sys (viabG g) (viabConst g) w x = true) → le w (calcViab g order)) := by
-  have := calc_gfp (viabG g) (conv_viab g hv) (List.range g.length)
-    (fun p c h => List.mem_range.2 (valid_children g hv p c h).1) (viabConst g) order
+/-- labels at positions that are not nodes of the graph are the default (no restriction on the labels of the
+nodes; `labOfList l` with `l.length ≤ g.length` has it) -/
+def DefaultOutside (g : AG) (v0 : Lab) : Prop := ∀ x, g.length ≤ x → v0 x = true
+
+theorem defaultOutside_top (g : AG) : DefaultOutside g top := fun _ _ => rfl
+
+theorem defaultOutside_labOfList (g : AG) (l : List Bool) (h : l.length ≤ g.length) :
+    DefaultOutside g (labOfList l) := by
+  intro x hx
+  have : l[x]? = none := List.getElem?_eq_none (Nat.le_trans h hx)
+  simp [labOfList, this]
+
+theorem reset_covers (g : AG) (order : List Nat) (hc : Covers g order) (v0 : Lab) (h0 : DefaultOutside g v0) :
+    ∀ x, x ∈ order ∨ v0 x = true := fun x => by
+  by_cases hx : x < g.length
+  · exact Or.inl (hc x hx)
+  · exact Or.inr (h0 x (Nat.le_of_not_lt hx))
+
+/-- **Viability is the greatest fixed point, from any initial labels**: whatever `is_viable` labels the nodes
+carry when `calculate_viability_and_necessity` is called, the computed labelling solves the equations of the
+graph and dominates every labelling that is consistent with them, for every node order. -/
+theorem viability_is_gfp_from (g : AG) (hv : validB g = true) (order : List Nat) (hc : Covers g order)
+    (v0 : Lab) (h0 : DefaultOutside g v0) :
+    (∀ x, calcViabFrom g order v0 x = Sys (viabG g) (viabConst g) (calcViabFrom g order v0) x) ∧
+    (∀ w : Lab, (∀ x, w x = true → Sys (viabG g) (viabConst g) w x = true) → le w (calcViabFrom g order v0)) := by
+  have := calc_gfp_any (viabG g) (conv_viab g hv) (List.range g.length)
+    (fun p c h => List.mem_range.2 (valid_children g hv p c h).1) (viabConst g) order v0
+    (reset_covers g order hc v0 h0)
     (fun x _ => by
       by_cases hx : x < g.length
       · exact Or.inl (hc x hx)
       · exact Or.inr (const_out_of_range_viab g x hx))
-  simpa [calcViab, List.length_range] using this
+  simpa [calcViabFrom, List.length_range] using this
+
+/-- **Necessity is the greatest fixed point, from any initial labels** (a parent with a TTC distribution
+counts as necessary: `eff`). -/
+theorem necessity_is_gfp_from (g : AG) (hv : validB g = true) (order : List Nat) (hc : Covers g order)
+    (n0 : Lab) (h0 : DefaultOutside g n0) :
+    (∀ x, calcNecFrom g order n0 x = Sys (necG g) (necConst g) (calcNecFrom g order n0) x) ∧
+    (∀ w : Lab, (∀ x, w x = true → Sys (necG g) (necConst g) w x = true) → le w (calcNecFrom g order n0)) := by
+  have := calc_gfp_any (necG g) (conv_nec g hv) (List.range g.length)
+    (fun p c h => List.mem_range.2 (valid_children g hv p c h).1) (necConst g) order n0
+    (reset_covers g order hc n0 h0)
+    (fun x _ => by
+      by_cases hx : x < g.length
+      · exact Or.inl (hc x hx)
+      · exact Or.inr (const_out_of_range_nec g x hx))
+  simpa [calcNecFrom, List.length_range] using this
+
+/-- **Viability is the greatest fixed point** (freshly generated graph): the computed labelling solves
+the equations and dominates every labelling that is consistent with them,
+for every node order. -/
+theorem viability_is_gfp (g : AG) (hv : validB g = true) (order : List Nat) (hc : Covers g order) :
+    (∀ x, calcViab g order x = Sys (viabG g) (viabConst g) (calcViab g order) x) ∧
+    (∀ w : Lab, (∀ x, w x = true → Sys (viabG g) (viabConst g) w x = true) → le w (calcViab g order)) :=
+  viability_is_gfp_from g hv order hc top (defaultOutside_top g)
 
 /-- **Necessity is the greatest fixed point** (a parent with a TTC
 distribution counts as necessary: `eff`). -/
 theorem necessity_is_gfp (g : AG) (hv : validB g = true) (order : List Nat) (hc : Covers g order) :
     (∀ x, calcNec g order x = Sys (necG g) (necConst g) (calcNec g order) x) ∧
-    (∀ w : Lab, (∀ x, w x = true → Sys (necG g) (necConst g) w x = true) → le w (calcNec g order)) := by
-  have := calc_gfp (necG g) (conv_nec g hv) (List.range g.length)
-    (fun p c h => List.mem_range.2 (valid_children g hv p c h).1) (necConst g) order
-    (fun x _ => by
-      by_cases hx : x < g.length
-      · exact Or.inl (hc x hx)
-      · exact Or.inr (const_out_of_range_nec g x hx))
-  simpa [calcNec, List.length_range] using this
+    (∀ w : Lab, (∀ x, w x = true → Sys (necG g) (necConst g) w x = true) → le w (calcNec g order)) :=
+  necessity_is_gfp_from g hv order hc top (defaultOutside_top g)
 
 /-- **Order independence**: any two visiting orders of the stored nodes give
 the same labels. -/
@@ -129,41 +167,176 @@ theorem list_order_independent (g g' : AG) (hv : validB g = true) (hv' : validB 
   rw [e1] at a1; rw [e2] at b1
   exact ⟨gfp_unique _ _ _ a1.1 a2.1 a1.2 a2.2, gfp_unique _ _ _ b1.1 b2.1 b1.2 b2.2⟩
 
-/-! ### analysing a graph again (after a complete or an aborted earlier run) -/
+/-! ### analysing a graph again: from any labels (a3159ad + 8a1d835) -/
 
-/-- **Re-running the analysis.**  Whatever prefix `pre` of the nodes an earlier run of
-`calculate_viability_and_necessity` got through before it stopped (e.g. on the `AssertionError` of an invalid
-defense status, repaired afterwards), running the analysis again on the labels it left behind gives the labels of
-a run on the freshly generated graph — in particular a second complete run changes nothing. -/
+/-- **The analysis from any labels is the greatest fixed point of the current graph**: labels left by an
+earlier analysis (complete or aborted), loaded from a file or set by the caller through the public
+`evaluate_*` / `propagate_*` functions do not matter. -/
+theorem calc_from_any_labels_is_gfp (g : AG) (hv : validB g = true) (order : List Nat) (hc : Covers g order)
+    (v0 n0 : Lab) (hv0 : DefaultOutside g v0) (hn0 : DefaultOutside g n0) :
+    ((∀ x, calcViabFrom g order v0 x = Sys (viabG g) (viabConst g) (calcViabFrom g order v0) x) ∧
+     (∀ w : Lab, (∀ x, w x = true → Sys (viabG g) (viabConst g) w x = true) → le w (calcViabFrom g order v0))) ∧
+    ((∀ x, calcNecFrom g order n0 x = Sys (necG g) (necConst g) (calcNecFrom g order n0) x) ∧
+     (∀ w : Lab, (∀ x, w x = true → Sys (necG g) (necConst g) w x = true) → le w (calcNecFrom g order n0))) :=
+  ⟨viability_is_gfp_from g hv order hc v0 hv0, necessity_is_gfp_from g hv order hc n0 hn0⟩
+
+/-- … and therefore equal to the analysis of the freshly generated graph -/
+theorem calc_from_any_labels_is_fresh_run (g : AG) (order : List Nat) (hc : Covers g order)
+    (v0 n0 : Lab) (hv0 : DefaultOutside g v0) (hn0 : DefaultOutside g n0) :
+    calcViabFrom g order v0 = calcViab g order ∧ calcNecFrom g order n0 = calcNec g order := by
+  unfold calcViab calcNec calcViabFrom calcNecFrom
+  rw [calcAll_eq _ _ _ order v0 (reset_covers g order hc v0 hv0),
+      calcAll_eq _ _ _ order n0 (reset_covers g order hc n0 hn0),
+      calcAll_eq _ _ _ order top (fun _ => Or.inr rfl), calcAll_eq _ _ _ order top (fun _ => Or.inr rfl)]
+  exact ⟨rfl, rfl⟩
+
+/-- **`calculate_viability_and_necessity` ignores the old labels**: two runs on the same graph that differ
+only in the labels the nodes carried before give the same labels. -/
+theorem calc_ignores_old_labels (g : AG) (order : List Nat) (hc : Covers g order)
+    (v0 v0' n0 n0' : Lab) (h1 : DefaultOutside g v0) (h1' : DefaultOutside g v0')
+    (h2 : DefaultOutside g n0) (h2' : DefaultOutside g n0') :
+    calcViabFrom g order v0 = calcViabFrom g order v0' ∧ calcNecFrom g order n0 = calcNecFrom g order n0' := by
+  have a := calc_from_any_labels_is_fresh_run g order hc v0 n0 h1 h2
+  have b := calc_from_any_labels_is_fresh_run g order hc v0' n0' h1' h2'
+  exact ⟨a.1.trans b.1.symm, a.2.trans b.2.symm⟩
+
+/-- the computed labels are again the default outside the graph -/
+theorem defaultOutside_calc (g : AG) (hv : validB g = true) (order : List Nat) (hc : Covers g order)
+    (v0 n0 : Lab) (hv0 : DefaultOutside g v0) (hn0 : DefaultOutside g n0) :
+    DefaultOutside g (calcViabFrom g order v0) ∧ DefaultOutside g (calcNecFrom g order n0) := by
+  constructor
+  · intro x hx
+    have hx' : ¬ x < g.length := Nat.not_lt.2 hx
+    have hnone : g[x]? = none := List.getElem?_eq_none hx
+    rw [(viability_is_gfp_from g hv order hc v0 hv0).1 x]
+    simp [Sys, viabG, typeOf, hnone, viabKind, const_out_of_range_viab g x hx']
+  · intro x hx
+    have hx' : ¬ x < g.length := Nat.not_lt.2 hx
+    have hnone : g[x]? = none := List.getElem?_eq_none hx
+    rw [(necessity_is_gfp_from g hv order hc n0 hn0).1 x]
+    simp [Sys, necG, typeOf, hnone, necKind, const_out_of_range_nec g x hx']
+
+/-- **Re-running the analysis after the graph changed.**  Analyse `g` (from any labels), then change defense /
+existence statuses, TTCs, even edges and node types (`g'`: any valid graph on the same positions) and analyse
+again on the labels the first run left behind: the result is the analysis of the freshly generated `g'`. -/
+theorem rerun_after_change (g g' : AG) (hlen : g'.length = g.length) (hv : validB g = true)
+    (order order' : List Nat) (hc : Covers g order) (hc' : Covers g' order')
+    (v0 n0 : Lab) (hv0 : DefaultOutside g v0) (hn0 : DefaultOutside g n0) :
+    calcViabFrom g' order' (calcViabFrom g order v0) = calcViab g' order' ∧
+    calcNecFrom g' order' (calcNecFrom g order n0) = calcNec g' order' := by
+  have h := defaultOutside_calc g hv order hc v0 n0 hv0 hn0
+  apply calc_from_any_labels_is_fresh_run g' order' hc'
+  · intro x hx; exact h.1 x (hlen ▸ hx)
+  · intro x hx; exact h.2 x (hlen ▸ hx)
+
+/-- **Re-running the analysis after an aborted run.**  Whatever prefix `pre` of the nodes the second loop of an
+earlier run of `calculate_viability_and_necessity` got through before it stopped (e.g. on the `AssertionError`
+of an invalid defense status, repaired afterwards), running the analysis again on the labels it left behind
+gives the labels of a run on the freshly generated graph.  (Corollary of `calc_from_any_labels_is_fresh_run`.) -/
 theorem rerun_is_fresh_run (g : AG) (hv : validB g = true) (pre order : List Nat) (hc : Covers g order) :
-    calcLab (viabG g) (viabConst g) (g.length + 1) order (calcLab (viabG g) (viabConst g) (g.length + 1) pre top)
-      = calcViab g order ∧
-    calcLab (necG g) (necConst g) (g.length + 1) order (calcLab (necG g) (necConst g) (g.length + 1) pre top)
-      = calcNec g order := by
+    calcViabFrom g order (calcLab (viabG g) (viabConst g) (g.length + 1) pre top) = calcViab g order ∧
+    calcNecFrom g order (calcLab (necG g) (necConst g) (g.length + 1) pre top) = calcNec g order := by
   have hcl : ∀ p c, c ∈ (viabG g).children p → c ∈ List.range g.length :=
     fun p c h => List.mem_range.2 (valid_children g hv p c h).1
-  have hallv : ∀ x, (viabG g).kind x = Kind.constK → x ∈ order ∨ viabConst g x = true := fun x _ => by
-    by_cases hx : x < g.length
-    · exact Or.inl (hc x hx)
-    · exact Or.inr (const_out_of_range_viab g x hx)
-  have halln : ∀ x, (necG g).kind x = Kind.constK → x ∈ order ∨ necConst g x = true := fun x _ => by
-    by_cases hx : x < g.length
-    · exact Or.inl (hc x hx)
-    · exact Or.inr (const_out_of_range_nec g x hx)
-  have a := calc_gfp_from (viabG g) (conv_viab g hv) (List.range g.length) hcl (viabConst g) order _
-    (oinv_calcLab (viabG g) (conv_viab g hv) (List.range g.length) hcl (viabConst g) pre) hallv
-  have b := calc_gfp_from (necG g) (conv_nec g hv) (List.range g.length) hcl (necConst g) order _
-    (oinv_calcLab (necG g) (conv_nec g hv) (List.range g.length) hcl (necConst g) pre) halln
-  have a' := viability_is_gfp g hv order hc
-  have b' := necessity_is_gfp g hv order hc
+  have a := (oinv_calcLab (viabG g) (conv_viab g hv) (List.range g.length) hcl (viabConst g) pre []).cst
+  have b := (oinv_calcLab (necG g) (conv_nec g hv) (List.range g.length) hcl (necConst g) pre []).cst
   simp only [List.length_range] at a b
-  exact ⟨gfp_unique _ _ _ a.1 a'.1 a.2 a'.2, gfp_unique _ _ _ b.1 b'.1 b.2 b'.2⟩
+  apply calc_from_any_labels_is_fresh_run g order hc
+  · intro x hx
+    have hnone : g[x]? = none := List.getElem?_eq_none hx
+    have := a x (by simp [viabG, typeOf, hnone, viabKind])
+    rw [const_out_of_range_viab g x (Nat.not_lt.2 hx)] at this
+    exact this.elim id id
+  · intro x hx
+    have hnone : g[x]? = none := List.getElem?_eq_none hx
+    have := b x (by simp [necG, typeOf, hnone, necKind])
+    rw [const_out_of_range_nec g x (Nat.not_lt.2 hx)] at this
+    exact this.elim id id
 
 /-- a second complete run is the identity on the labels -/
 theorem rerun_idempotent (g : AG) (hv : validB g = true) (order : List Nat) (hc : Covers g order) :
-    calcLab (viabG g) (viabConst g) (g.length + 1) order (calcViab g order) = calcViab g order ∧
-    calcLab (necG g) (necConst g) (g.length + 1) order (calcNec g order) = calcNec g order :=
-  rerun_is_fresh_run g hv order order hc
+    calcViabFrom g order (calcViab g order) = calcViab g order ∧
+    calcNecFrom g order (calcNec g order) = calcNec g order :=
+  rerun_after_change g g rfl hv order order hc hc top top (defaultOutside_top g) (defaultOutside_top g)
+
+/-! ### the three repaired defects, as proved counterexamples about the pre-fix variants -/
+
+/-- a defense whose only child is an `or` step; `enabled` = its status is `1.0` (else `0.5`) -/
+def oneDefense (enabled : Bool) : AG := [
+  { type := .defense, children := [1], parents := [], defOne := enabled, defZero := false },
+  { type := .or, children := [], parents := [0] } ]
+
+/-- **Before a3159ad** `calculate_viability_and_necessity` was the second loop alone (`calcLab`, no reset).
+Analyse the graph with the defense enabled (the `or` step becomes unviable), disable the defense, analyse again:
+the pre-fix loop leaves the step unviable although the greatest fixed point of the current graph has it viable;
+the repaired function (`calcViabFrom`) gives the greatest fixed point. -/
+theorem pre_fix_variant_keeps_stale_labels :
+    let old := calcViab (oneDefense true) [0, 1]
+    old 1 = false ∧
+    calcLab (viabG (oneDefense false)) (viabConst (oneDefense false)) 3 [0, 1] old 1 = false ∧
+    calcViab (oneDefense false) [0, 1] 1 = true ∧
+    calcViabFrom (oneDefense false) [0, 1] old 1 = true := by
+  simp [calcViab, calcViabFrom, calcAll, calcLab, resetLab, prop, loop, recompute, eff, upd, top, viabG,
+    viabConst, oneDefense, typeOf, viabKind]
+
+/-- two defenses with a common `or` child; the first is enabled, `second` says whether the second is -/
+def twoDefenses (second : Bool) : AG := [
+  { type := .defense, children := [2], parents := [], defOne := true, defZero := false },
+  { type := .defense, children := [2], parents := [], defOne := second, defZero := !second },
+  { type := .or, children := [], parents := [0, 1] } ]
+
+/-- **Between a3159ad and 8a1d835** the reset loop skipped defenses and existence steps (`calcAllGuarded`).
+Analyse with both defenses enabled, disable the second one, analyse again: when the first defense propagates,
+the `or` step is recomputed from the *old* label `False` of the second defense, which is only re-evaluated
+afterwards (to `True`, so it does not propagate): the step stays unviable.  The greatest fixed point of the
+current graph has it viable, and so has the repaired function. -/
+theorem guarded_reset_variant_keeps_stale_status_label :
+    let old := calcViab (twoDefenses true) [0, 1, 2]
+    old 1 = false ∧
+    calcAllGuarded (viabG (twoDefenses false)) (viabConst (twoDefenses false)) 4 [0, 1, 2] old 2 = false ∧
+    calcViab (twoDefenses false) [0, 1, 2] 2 = true ∧
+    calcViabFrom (twoDefenses false) [0, 1, 2] old 2 = true := by
+  simp [calcViab, calcViabFrom, calcAll, calcAllGuarded, calcLab, resetLab, resetLabGuarded, prop, loop,
+    recompute, eff, upd, top, viabG, viabConst, twoDefenses, typeOf, viabKind]
+
+/-- the hypothesis `NoStaleStatus` of `Apriori.calcAllGuarded_gfp_partial` fails on that input, as it must -/
+example : ¬ NoStaleStatus (viabG (twoDefenses false)) (viabConst (twoDefenses false))
+    (calcViab (twoDefenses true) [0, 1, 2]) := by
+  intro h
+  have := h 1 (by simp [viabG, twoDefenses, typeOf, viabKind])
+  simp [calcViab, calcViabFrom, calcAll, calcLab, resetLab, prop, loop, recompute, eff, upd, top, viabG,
+    viabConst, twoDefenses, typeOf, viabKind] at this
+
+/-- **A composite TTC (or a number) is a probability distribution** (68ab4f5): any non-empty TTC dict without a
+`name` key counts, as does any named function other than Enabled / Disabled; `None`, `{}`, Enabled and Disabled
+do not. -/
+theorem composite_ttc_is_distribution (n : ANode) :
+    (n.ttcSet = true → n.ttcName = none → n.hasDist = true) ∧
+    (n.ttcSet = true → ∀ nm, n.ttcName = some nm → (n.hasDist = true ↔ nm ≠ "Enabled" ∧ nm ≠ "Disabled")) ∧
+    (n.ttcSet = false → n.hasDist = false) := by
+  refine ⟨fun h1 h2 => by simp [ANode.hasDist, ANode.pseudo, h1, h2],
+          fun h1 nm h2 => by simp [ANode.hasDist, ANode.pseudo, h1, h2],
+          fun h1 => by simp [ANode.hasDist, h1]⟩
+
+/-- the necessity graph with the distribution test as it was before 68ab4f5 -/
+def necGPreFix (g : AG) : G := { necG g with gate := fun i => ((g[i]?).map (·.hasDistPreFix)).getD false }
+
+/-- an existing asset's `exist` step (unnecessary) → an `or` step with a composite TTC → an `and` step -/
+def compositeDemo : AG := [
+  { type := .exist, children := [1], parents := [], exist := true },
+  { type := .or, children := [2], parents := [0], ttcSet := true, ttcName := none },
+  { type := .and, children := [], parents := [1] } ]
+
+/-- **Before 68ab4f5** a TTC without a `name` key was treated like no TTC: the unnecessary `or` step 1, whose TTC
+is a sum of distributions, passed its status on to the `and` step 2.  With the repaired test step 1 counts as
+necessary for its children and step 2 stays necessary. -/
+theorem pre_fix_distribution_test_misses_composite :
+    (compositeDemo[1]?.map (·.hasDistPreFix)) = some false ∧ (compositeDemo[1]?.map (·.hasDist)) = some true ∧
+    calcAll (necGPreFix compositeDemo) (necConst compositeDemo) 4 [0, 1, 2] top 2 = false ∧
+    calcNec compositeDemo [0, 1, 2] 1 = false ∧
+    calcNec compositeDemo [0, 1, 2] 2 = true := by
+  simp [calcNec, calcNecFrom, calcAll, calcLab, resetLab, prop, loop, recompute, eff, upd, top, necG, necGPreFix,
+    necConst, compositeDemo, typeOf, necKind, ANode.hasDist, ANode.hasDistPreFix, ANode.pseudo]
 
 /-! ### the clauses of the property, read off the fixed-point equation -/
 
@@ -257,7 +430,7 @@ def demo : AG := [
   { type := .defense, children := [2], parents := [], defOne := true, defZero := false },
   { type := .exist, children := [3], parents := [], exist := false },
   { type := .or, children := [2, 3, 4], parents := [0, 2, 4] },
-  { type := .and, children := [4], parents := [1, 2], gate := true },
+  { type := .and, children := [4], parents := [1, 2], ttcSet := true, ttcName := some "Exponential" },
   { type := .or, children := [2], parents := [2, 3] },
   { type := .notExist, children := [], parents := [], exist := false } ]
 
